@@ -264,8 +264,8 @@ func hObserveFile(name string, policy int) (seen []hEvent, producerDone bool, st
 // consumer sees the callback parser's records, then completion or that error; a draining
 // consumer sees Done last and the producer exits.
 func Harness_channel_parse_file() {
-	kind := verifChoose("file", 7)
-	verifLabel("file", []string{"well-formed", "malformed", "missing", "directory", "byte-order-mark", "two-bytes", "one-byte"}[kind])
+	kind := verifChoose("file", 8)
+	verifLabel("file", []string{"well-formed", "malformed", "missing", "directory", "byte-order-mark", "two-bytes", "one-byte", "named-pipe"}[kind])
 	name := ""
 	switch kind {
 	case 0:
@@ -284,6 +284,22 @@ func Harness_channel_parse_file() {
 		name = verifFile("f", "7")
 	}
 	policy := verifChoose("policy", 2)
+	if kind == 7 {
+		// a named pipe can be read once: the reference comes from the same text as a stream
+		const text = "d0:\n  a: 1\nd1:\n  b: 2\n"
+		ref := &hRec{}
+		ParseStreamCallback(strings.NewReader(text), NewDefaultConfig(), ref.cb)
+		seen, _, stuck := hObserveFile(verifFifo("f", text), policy)
+		verifCover("observed")
+		verifAssert("consumer-terminates", !stuck)
+		k := 0
+		for k < len(seen) && seen[k].kind == 0 {
+			k++
+		}
+		verifAssert("records-before-first-error", k == len(ref.nodes))
+		verifAssert("completion-after-records", !stuck && len(seen) == k+1 && seen[k].kind == 2)
+		return
+	}
 	ref := &hRec{}
 	var firstErr error
 	refErr := ParseFileCallback(name, NewDefaultConfig(), func(n *shared.ParserNode, err error) (bool, error) {
